@@ -22,7 +22,16 @@
    [eval] returned for all 2^n assignments.
    RESTRICT: the cube is rebuilt by the model the way the harness builds it (product of x resp.
    1 - x); [Model.cube_lits] must recognise it (hypothesis [Cube] of the restrict theorems) with
-   exactly the requested literals. *)
+   exactly the requested literals.
+
+   Cases with kind=mtbddf (MTBDD<F64>; values are 16-digit hex bit patterns) are checked against the
+   extracted Flocq model of the scalar operations (coq/Num/F64.v): on every snapshot the structural
+   invariant [Model.wf_b] and canonicity over all handle pairs are evaluated with terminal values =
+   NORMALISED patterns (two terminals that differ only in the sign of zero or a NaN payload are
+   duplicates), and the RAW value table of every VT/CONSTN/VAR/ADD/SUB/MUL/DIV/MIN/MAX/ITE/RESTRICT
+   result and every EVAL must be the pointwise extracted operation on the operands' raw tables (all
+   results of the model are normalised patterns, so a -0.0 or a NaN with payload in a result is a
+   violation of "NaN and signed zero normalised"). *)
 open Conv
 open Dd_types
 
@@ -151,6 +160,59 @@ let build_cube (k : int) (s : Model.snap) (v2l : int array) (pos : int) (neg : i
   stat "c10b_cubes" 1;
   (!st, !acc)
 
+(* ---- MTBDD<F64> ------------------------------------------------------------------------ *)
+let z_of_hex (s : string) = Z.of_string ("0x" ^ s)
+let hex_of_z (x : Z.t) = Z.format "%016x" x
+let f64_memo : (string * string * string, string) Hashtbl.t = Hashtbl.create 1024
+let f64_bin (op : string) (a : string) (b : string) : string =
+  match Hashtbl.find_opt f64_memo (op, a, b) with
+  | Some r -> r
+  | None ->
+    let f = match op with
+      | "ADD" -> Model.f64_add | "SUB" -> Model.f64_sub | "MUL" -> Model.f64_mul
+      | "DIV" -> Model.f64_div | "MIN" -> Model.f64_min | "MAX" -> Model.f64_max
+      | o -> failwith ("f64 op " ^ o) in
+    let r = hex_of_z (z_of_mz (f (mz_of_z (z_of_hex a)) (mz_of_z (z_of_hex b)))) in
+    Hashtbl.replace f64_memo (op, a, b) r; r
+let f64_from (a : string) : string = hex_of_z (z_of_mz (Model.f64_from_bits (mz_of_z (z_of_hex a))))
+let f64_is_zero (a : string) : bool = Model.f64_is_zero (mz_of_z (z_of_hex a))
+let f64_zero_hex = hex_of_z (z_of_mz Model.f64_zero)
+let f64_one_hex = hex_of_z (z_of_mz Model.f64_one)
+
+(* snapshot of an mtbddf manager: [nps] with normalised value codes (structure audits), raw value
+   tables of all handles *)
+type fsnap = { nps : psnap; rtab : (int, string array) Hashtbl.t; ntab : (int, vt) Hashtbl.t;
+               rterms : (string * string) list }     (* terminal id, raw pattern *)
+
+let flift (body : string) : fsnap =
+  let nps = parse_snapshot "mtbddf" body in
+  (* raw patterns: own interning, terminal id |-> index into [raws] *)
+  let raws : (string, int) Hashtbl.t = Hashtbl.create 16 in
+  let names : (int, string) Hashtbl.t = Hashtbl.create 16 in
+  let terms = ref [] and rterms = ref [] in
+  List.iter
+    (fun piece ->
+      match split_ws piece with
+      | [ "T"; id; v ] ->
+        let v = String.lowercase_ascii v in
+        rterms := (id, v) :: !rterms;
+        let c = (match Hashtbl.find_opt raws v with
+            | Some c -> c
+            | None -> let c = Hashtbl.length raws in Hashtbl.add raws v c; Hashtbl.add names c v; c) in
+        terms := (n_of_string id, n_of_int c) :: !terms
+      | _ -> ())
+    (split_bar body);
+  let rsnap = { nps.snap with Model.s_terms = List.rev !terms } in
+  let rtab = Hashtbl.create 32 and ntab = Hashtbl.create 32 in
+  List.iter
+    (fun (slot, e) ->
+      (match value_table { nps with snap = rsnap } e with
+       | Some t -> Hashtbl.replace rtab slot (Array.map (fun c -> Hashtbl.find names c) t)
+       | None -> raise (Fail (Printf.sprintf "handle h%d: interpretation undefined" slot)));
+      (match value_table nps e with Some t -> Hashtbl.replace ntab slot t | None -> ()))
+    nps.handles;
+  { nps; rtab; ntab; rterms = List.rev !rterms }
+
 (* one pending operation *)
 type pend = {
   pstep : int; ptoks : string list; pres : string;
@@ -159,10 +221,165 @@ type pend = {
   pdst : (int * int) option;           (* destination slot and its version after the op *)
 }
 
+type fpend = {
+  fstep : int; ftoks : string list; fres : string;
+  fpre : fsnap option; fops : (int * int) list; fdst : (int * int) option;
+}
+
+let process_f64 (c : case) : unit =
+  let failed = ref false in
+  let fail step msg =
+    stat "c10b_f64_bad" 1;
+    if not !failed then (failed := true; verdict_bad c step "prop" ("prop=C10 mtbddf: " ^ msg)) in
+  let versions : (int, int) Hashtbl.t = Hashtbl.create 32 in
+  let epoch = ref 0 in
+  let ver slot = (!epoch * 1000000) + (try Hashtbl.find versions slot with Not_found -> 0) in
+  let bump slot = Hashtbl.replace versions slot (1 + try Hashtbl.find versions slot with Not_found -> 0) in
+  let cur : fsnap option ref = ref None in
+  let fresh = ref false in
+  let pending : fpend list ref = ref [] in
+  let audit (step : int) (fs : fsnap) =
+    let s = fs.nps.snap in
+    stat "c10b_f64_snapshots" 1;
+    if not (Model.wf_b s) then begin
+      (* two terminals with the same normalised value? *)
+      let seen : (string, string * string) Hashtbl.t = Hashtbl.create 16 in
+      let dup = ref None in
+      List.iter
+        (fun (id, v) ->
+          let nv = f64_norm_hex v in
+          match Hashtbl.find_opt seen nv with
+          | Some (id0, v0) -> if !dup = None then dup := Some (id0, v0, id, v)
+          | None -> Hashtbl.add seen nv (id, v))
+        fs.rterms;
+      match !dup with
+      | Some (id0, v0, id, v) ->
+        fail step (Printf.sprintf "terminals t%s = %s and t%s = %s carry the same value: a result was stored without the normalisation of NaN / signed zero (hash-consing of terminals broken)" id0 v0 id v)
+      | None -> fail step "wf_b false on the snapshot (structure)"
+    end;
+    (* canonicity over the handles: equal (normalised) value tables <-> equal edges *)
+    let by_tab : (vt, int * Model.edge) Hashtbl.t = Hashtbl.create 64 in
+    List.iter
+      (fun (slot, e) ->
+        match Hashtbl.find_opt fs.ntab slot with
+        | None -> ()
+        | Some tb ->
+          (match Hashtbl.find_opt by_tab tb with
+           | Some (s0, e0) ->
+             if not (Model.edge_eqb e0 e) then
+               fail step (Printf.sprintf "handles h%d (%s) and h%d (%s) denote the same function [%s] but are different edges"
+                            s0 (show_edge e0) slot (show_edge e)
+                            (String.concat " " (Array.to_list (Hashtbl.find fs.rtab slot))))
+           | None -> Hashtbl.add by_tab tb (slot, e)))
+      fs.nps.handles in
+  let resolve (post : fsnap) =
+    let n = Array.length post.nps.l2v in
+    let size = 1 lsl n in
+    List.iter
+      (fun p ->
+        let what = String.concat " " p.ftoks in
+        try
+          let ops_valid = List.for_all (fun (sl, v) -> ver sl = v) p.fops in
+          (* raw table of an operand as it was when the operation was issued *)
+          let opnd (name : string) : string array =
+            let sl = slot_of name in
+            match p.fpre with
+            | Some pre when pre.nps.l2v = post.nps.l2v && Hashtbl.mem pre.rtab sl -> Hashtbl.find pre.rtab sl
+            | _ -> if ops_valid then Hashtbl.find post.rtab sl else raise Not_found in
+          let expect (dst : int) (exp : string array) =
+            let got = Hashtbl.find post.rtab dst in
+            stat "c10b_f64_checked" 1;
+            if got <> exp then
+              raise (Fail (Printf.sprintf "%s: result values [%s], expected (extracted F64 model, pointwise) [%s]" what
+                             (String.concat " " (Array.to_list got)) (String.concat " " (Array.to_list exp)))) in
+          match p.ftoks, p.fdst with
+          | [ "EVAL"; a ], _ ->
+            (match split_ws p.fres with
+             | "vt" :: nn :: vals when int_of_string nn = n ->
+               let ta = opnd a in
+               stat "c10b_f64_eval" 1;
+               if Array.of_list (List.map String.lowercase_ascii vals) <> ta then
+                 raise (Fail (Printf.sprintf "%s: eval returns [%s], the node-by-node interpretation is [%s]" what
+                                (String.concat " " vals) (String.concat " " (Array.to_list ta))))
+             | _ -> ())
+          | _, Some (dslot, dver) when ver dslot = dver ->
+            (match p.ftoks with
+             | [ ("ADD" | "SUB" | "MUL" | "DIV" | "MIN" | "MAX") as op; _; a; b ] ->
+               let ta = opnd a and tb = opnd b in
+               expect dslot (Array.init size (fun i -> f64_bin op ta.(i) tb.(i)))
+             | [ "ITE"; _; f; g; h ] ->
+               let tf = opnd f and tg = opnd g and th = opnd h in
+               expect dslot (Array.init size (fun i -> if f64_is_zero tf.(i) then th.(i) else tg.(i)))
+             | [ "RESTRICT"; _; a; pos; neg ] ->
+               let ta = opnd a in
+               let pos = int_of_string pos and neg = int_of_string neg in
+               expect dslot (Array.init size (fun i -> ta.((i lor pos) land lnot neg)))
+             | [ "CONSTN"; _; v ] -> expect dslot (Array.make size (f64_from v))
+             | [ "VAR"; _; v ] ->
+               let v = int_of_string v in
+               expect dslot (Array.init size (fun i -> if (i lsr v) land 1 = 1 then f64_one_hex else f64_zero_hex))
+             | "VT" :: _ :: nv :: vals ->
+               let nv = int_of_string nv in
+               let vals = Array.of_list (List.map f64_from vals) in
+               if Array.length vals = 1 lsl nv && nv <= n then
+                 expect dslot (Array.init size (fun i -> vals.(i land ((1 lsl nv) - 1))))
+             | _ -> ())
+          | _ -> stat "c10b_f64_unresolved" 1
+        with
+        | Fail m -> fail p.fstep m
+        | Not_found -> stat "c10b_f64_unresolved" 1)
+      (List.rev !pending);
+    pending := [] in
+  List.iteri
+    (fun i l ->
+      if l = "HANG" || starts_with l "PANIC" || starts_with l "CRASH" then
+        fail i ("implementation panicked/hung: " ^ l)
+      else begin
+        let ops, res = split_arrow l in
+        let toks = split_ws ops in
+        match toks with
+        | [ "SNAP" ] ->
+          (try
+             let fs = flift res in
+             audit i fs; resolve fs; cur := Some fs; fresh := true
+           with
+           | Failure m -> fail i ("driver: " ^ m)
+           | Fail m -> fail i m)
+        | _ when starts_with res "err" -> ()
+        | [] -> ()
+        | op :: rest ->
+          let pre = if !fresh then !cur else None in
+          let names =
+            (match toks with
+             | [ ("ADD" | "SUB" | "MUL" | "DIV" | "MIN" | "MAX"); _; a; b ] -> [ a; b ]
+             | [ "ITE"; _; f; g; h ] -> [ f; g; h ]
+             | [ "RESTRICT"; _; a; _; _ ] -> [ a ]
+             | [ "EVAL"; a ] -> [ a ]
+             | _ -> []) in
+          (match op, rest with
+           | ("ADD" | "SUB" | "MUL" | "DIV" | "MIN" | "MAX" | "ITE" | "RESTRICT" | "CONSTN" | "VAR" | "VT"), dst :: _ ->
+             let fops = List.map (fun a -> (slot_of a, ver (slot_of a))) names in
+             bump (slot_of dst);
+             pending := { fstep = i; ftoks = toks; fres = res; fpre = pre; fops;
+                          fdst = Some (slot_of dst, ver (slot_of dst)) } :: !pending
+           | "EVAL", [ a ] ->
+             pending := { fstep = i; ftoks = toks; fres = res; fpre = pre;
+                          fops = [ (slot_of a, ver (slot_of a)) ]; fdst = None } :: !pending
+           | "CLONE", dst :: _ -> bump (slot_of dst)
+           | ("DROP" | "DROPT"), [ a ] -> bump (slot_of a)
+           | "DROPALL", _ -> incr epoch
+           | _ -> ());
+          fresh := false
+      end)
+    c.lines;
+  stat "c10b_f64_cases" 1;
+  if not !failed then verdict_ok c
+
 let () =
   iter_cases stdin (fun c ->
       let kname = match param c "kind" with Some k -> k | None -> "bdd" in
-      if kname <> "mtbdd" then verdict_ok c
+      if kname = "mtbddf" then process_f64 c
+      else if kname <> "mtbdd" then verdict_ok c
       else begin
         let failed = ref false in
         let fail step msg =
